@@ -115,10 +115,12 @@ class TexNode(object):
         \newcommand{reverseconcat}[3]{#3#2#1}
         """
         for child in self.expr.all:
-            assert isinstance(child, TexExpr)
-            node = TexNode(child)
-            node.parent = self
-            yield node
+            if isinstance(child, TexExpr):
+                node = TexNode(child)
+                node.parent = self
+                yield node
+            else:
+                yield child
 
     @property
     def args(self):
